@@ -21,12 +21,21 @@ type copts struct {
 	t0               *sparse.Vector
 	flat, leaders    int
 	maxI, minI, freq *int
+	res              *sparse.Vector // WithResultIn: a separate, pre-filled destination vector
+	aliasT0          bool           // WithResultIn(v) and WithInitialTrust(v) on the SAME vector (the gRPC server's warm start)
 }
 
 func (o copts) goOpts(stats *basic.FlatTailStats) []basic.ComputeOpt {
 	opts := []basic.ComputeOpt{basic.WithFlatTailStats(stats), basic.WithFlatTail(o.flat), basic.WithFlatTailNumLeaders(o.leaders)}
 	if o.t0 != nil {
-		opts = append(opts, basic.WithInitialTrust(cloneVec(o.t0)))
+		v := cloneVec(o.t0)
+		opts = append(opts, basic.WithInitialTrust(v))
+		if o.aliasT0 {
+			opts = append(opts, basic.WithResultIn(v))
+		}
+	}
+	if o.res != nil && !(o.aliasT0 && o.t0 != nil) {
+		opts = append(opts, basic.WithResultIn(cloneVec(o.res)))
 	}
 	if o.maxI != nil {
 		opts = append(opts, basic.WithMaxIterations(*o.maxI))
@@ -334,6 +343,20 @@ func runComputeProps(prop string) func(h *H) {
 					p.Entries[i].Value *= 1 + float64(i+1)*1e-3
 				}
 				basic.CanonicalizeTrustVector(p)
+			}
+			// where the result goes is not part of the model (a pure function): the destination may be a fresh
+			// vector, a separate pre-filled one, or the very vector given as initial trust (gRPC warm start)
+			if p.Dim == dim {
+				switch g.intn(5) {
+				case 0:
+					o.res = g.distribution(dim)
+					g.count("result-in:separate")
+				case 1, 2:
+					if o.t0 != nil && o.t0.Dim == dim {
+						o.aliasT0 = true
+						g.count("result-in:aliases-initial-trust")
+					}
+				}
 			}
 			w := h.line(prop, "compute").creq(c, p, a, e, o)
 			oc := observeCompute(w, c, p, a, e, o, wd)
